@@ -61,6 +61,13 @@ Inductive case :=
      the driver's own stripped view *)
 | CaseCacheEntry (m : cmsg) (dnssec : list N) (lib : N) (want : list N) (stored : bool) (wire : list N)
                  (stripped : option (list N * list N))
+  (* responseWriter.WriteMsg of a concrete reply on a writer with / without AllowDirectPack, internal
+     or not: the raw bytes Transport.Write got (if any), did Transport.WriteMsg get the message;
+     the library's Pack of a deep copy (0 ok / 1 error / 2 panic, bytes) *)
+| CaseReply (m : cmsg) (direct internal : bool) (wrote : option (list N)) (fell_back : bool) (lib : N) (want : list N)
+  (* validatedNegativeProofFingerprint of a concrete proof: valid?, is the sum the SHA-256 of the
+     library's Pack of the driver's own {Rcode, Ns} view?; that Pack (0 / 1 / 2, bytes) *)
+| CaseFingerprint (m : cmsg) (valid sum_is_hash_of_want : bool) (lib : N) (want : list N)
 with crec := R (nm : list N) (k : rkind) (ptr ty cls ttl rdlen : N) (steps : body)
 with cmsg := CM (h : mhdr) (compress : bool) (qs : list (list N * N * N)) (an ns ex : list crec).
 
@@ -208,6 +215,25 @@ Definition check_case (c : case) : bool :=
           | _ => false
           end
       end
+  | CaseReply cm direct internal wrote fell lib want =>
+      let m := msg_of_cm cm in
+      match fst (write_msg_c direct internal dirty_state m), wrote with
+      | SentBytes b, Some b' => bytes_eqb b b' && negb fell
+      | SentMsg _, None => fell
+      | _, _ => false
+      end &&
+      match fst (lib_pack_c m) with
+      | LOk b => (lib =? 0) && bytes_eqb b want
+      | LErr => lib =? 1
+      | LPanic => lib =? 2
+      end
+  | CaseFingerprint cm valid sum_ok lib want =>
+      let m := msg_of_cm cm in
+      match fst (fingerprint_c (fun b => b) dirty_state m) with
+      | FpSum b => valid && sum_ok && (lib =? 0) && bytes_eqb b want
+      | FpInvalid => negb valid && (lib =? 1)
+      | FpPanic => lib =? 2
+      end
   end.
 
 Definition crec_kind (r : crec) : rkind := match r with R _ k _ _ _ _ _ _ => k end.
@@ -300,5 +326,22 @@ Definition spec_case (c : case) : bool :=
               (u16_at got2 6 =? count16 (keep an)) && (u16_at got2 8 =? count16 (keep ns)) &&
               (u16_at got2 10 =? u16_at wire 10)
           end
+      end
+  | CaseReply cm direct internal wrote fell lib want =>
+      (* exactly one transport call; raw bytes only on a declared sink, never for an internal
+         writer, only for a message the library packs, and then the library's bytes *)
+      match wrote with
+      | Some b => negb fell && direct && negb internal && (lib =? 0) && bytes_eqb b want
+      | None => fell
+      end
+  | CaseFingerprint cm valid sum_ok lib want =>
+      (* a proof seals exactly when the library packs {Rcode, Ns}; the seal is the hash of those
+         bytes: header counts 0 / 0 / |Ns| / 0 *)
+      match cm with
+      | CM h compress qs an ns ex =>
+          Bool.eqb valid (lib =? 0) &&
+          (if valid then sum_ok && (u16_at want 4 =? 0) && (u16_at want 6 =? 0) && (u16_at want 8 =? count16 ns) &&
+                         (u16_at want 10 =? 0)
+           else true)
       end
   end.
